@@ -18,7 +18,7 @@ func init() {
 	Registry["C09"] = &Check{
 		Spec: func(tier string) evid.Spec {
 			return evid.Spec{ID: "C09", Level: "model_checking", Exhaustive: true,
-				Rule: "14 session scripts (ASCII 3-packet login good / bad password / unknown user, user in START, PAP good/bad, abort at step 2 and at step 3, command authorization permitted/denied, session authorization, accounting start, the same command lines asked by users with opposite rules), each with its own user so that a leaked " +
+				Rule: "15 session scripts (a session whose request is numbered 255; ASCII 3-packet login good / bad password / unknown user, user in START, PAP good/bad, abort at step 2 and at step 3, command authorization permitted/denied, session authorization, accounting start, the same command lines asked by users with opposite rules), each with its own user so that a leaked " +
 					"user name, prompt state or continuation changes a reply. (a) one connection: every order-preserving interleaving of every ordered pair of scripts on two session ids, and of a fixed set of triples (thorough: all triples of 6 scripts); " +
 					"(b) two connections carrying the SAME session id: every packet-level interleaving of every pair. Oracle: each session's transcript (raw reply headers and decoded bodies, per packet) equals the transcript of the same script " +
 					"run alone on a freshly built server. (c) engine E2: every pair of 5 bcrypt-free scripts on two concurrent connection goroutines sharing a session id, every schedule within the deviation bound; plus every (abandoned login prefix on a connection that then closes, script on a new connection with the same session id) pair. states = distinct (script set, interleaving position) pairs; transitions = packets delivered; traces = interleavings on which all transcripts matched",
@@ -69,6 +69,8 @@ func c09Scripts(e *rEnv) [][]rPkt {
 		// be reused for another user's session)
 		{{Kind: "author", User: "shared", Args: []string{"service=shell", "cmd=show"}}},
 		{{Kind: "author", User: "override", Args: []string{"service=shell", "cmd=reload"}}, {Kind: "author", User: "own", Args: []string{"service=shell", "cmd=configure", "cmd-arg=terminal"}, SeqMode: "one"}},
+		// a session whose request is numbered 255: it cannot be answered, which is that session's business alone
+		{{Kind: "author", User: "own", Args: []string{"service=shell", "cmd=show"}, SeqMode: "255"}},
 	}
 }
 
